@@ -13,7 +13,7 @@ REPO = Path(os.environ.get("OPC_REPO", "/repo")).resolve()
 VENV_PY = os.environ.get("OPC_PY", "/venv/bin/python")
 SPEC = VERIF / "spec"
 GUARD = "OPC_VERIF_TRACE"  # the hooks guard (a file path); unset => hooks inert
-NCPU = min(16, os.cpu_count() or 4)
+NCPU = min(16, int(os.environ.get("VERIF_NCPU", "0")) or os.cpu_count() or 4)
 
 
 def ensure_repo_on_path() -> None:
